@@ -1,6 +1,7 @@
 import GtModel.Model.Proto
 import GtModel.Model.Range
 import GtModel.Model.Edits
+import GtModel.Model.Cli
 open Lean GtModel
 
 namespace Driver
@@ -11,6 +12,8 @@ def table : List (String × Handler) := [
   ("echo", echo),
   ("range", rangeHandler),
   ("script", scriptHandler),
+  ("cli", Cli.cliHandler),
+  ("errorpath", Cli.errorPathHandler),
   ("editmatrix", EditMatrix.editMatrixHandler),
   ("strscript", EditMatrix.strScriptHandler)
 ]
